@@ -427,7 +427,7 @@ async fn blank_case(pki: &Pki, servers: &[Server], c: &[u64]) -> Vec<u64> {
 async fn signal_case(pki: &Pki, tag: &str, c: &[u64]) -> Vec<u64> {
     use rusty_penguin_lib::arg::ServerArgs;
     let d = pki.d();
-    let (mut cert, n) = (c[0] % 3, c[1]);
+    let (mut cert, n, bad) = (c[0] % 3, c[1], c.get(2).is_some_and(|&b| b != 0));
     let (certp, keyp, cap) = (p(d, &format!("sig-{tag}.pem")), p(d, &format!("sig-{tag}.key")), p(d, "clientca.pem"));
     std::fs::copy(d.join(format!("srv{cert}.pem")), &certp).unwrap();
     std::fs::copy(d.join(format!("srv{cert}.key")), &keyp).unwrap();
@@ -466,6 +466,21 @@ async fn signal_case(pki: &Pki, tag: &str, c: &[u64]) -> Vec<u64> {
             }
         }
         out.extend([reached, seen, bare, asks(port).await]);
+        if round < n && bad {
+            // a reload that fails (the certificate file holds garbage when the signal arrives): the identity stays, and the
+            // server must go on listening to later signals
+            std::fs::write(&certp, b"-----BEGIN GARBAGE-----\nnot a certificate\n").unwrap();
+            let _ = std::process::Command::new("sh").arg("-c").arg(format!("kill -USR1 {}", std::process::id())).status();
+            tokio::time::sleep(Duration::from_millis(200)).await;
+            let (mut reached, mut seen) = (0u64, 9u64);
+            if let Ok(tcp) = TcpStream::connect(("127.0.0.1", port)).await {
+                if let Ok(mut s) = tls_connect(tcp, "localhost", Some(&good_c), Some(&good_k), None, true).await {
+                    seen = s.get_ref().1.peer_certificates().and_then(|v| v.first()).map_or(9, |der| pki.seen(der.as_ref()));
+                    reached = u64::from(http_roundtrip(&mut s, true).await);
+                }
+            }
+            out.extend([reached, seen]);
+        }
         if round < n {
             cert = (cert + 1) % 3;
             std::fs::copy(d.join(format!("srv{cert}.pem")), &certp).unwrap();
@@ -530,7 +545,7 @@ impl Ctx {
                 self.n.set(self.n.get() + 1);
                 self.rt.block_on(reload_case(&self.pki, &format!("r{}", self.n.get()), &c[1..]))
             }
-            Some(5) if c.len() == 3 && c[2] <= 6 => {
+            Some(5) if (c.len() == 3 || c.len() == 4) && c[2] <= 6 => {
                 self.n.set(self.n.get() + 1);
                 self.rt.block_on(signal_case(&self.pki, &format!("s{}", self.n.get()), &c[1..]))
             }
@@ -565,6 +580,12 @@ pub fn generate(a: &Args, out: &mut Out) {
     }
     for (cert, n) in [(0u64, 3u64), (2, 2)] {
         let c = vec![17, 5, cert, n];
+        let r = ctx.run_case(&c[1..]);
+        out.emit(&c, &r);
+    }
+    // the same with a failed reload (garbage in the certificate file) before each good one
+    {
+        let c = vec![17, 5, 1, 2, 1];
         let r = ctx.run_case(&c[1..]);
         out.emit(&c, &r);
     }
